@@ -98,7 +98,10 @@ def _get_boolability_no_mvv(value: Value) -> Boolability:
     if isinstance(value, AnnotatedValue):
         value = value.value
     value = replace_known_sequence_value(value)
-    if isinstance(value, AnyValue):
+    if isinstance(value, MultiValuedValue):
+        # e.g., the fallback value of a TypeVar with constraints
+        return get_boolability(value)
+    elif isinstance(value, AnyValue):
         return Boolability.boolable
     elif isinstance(value, UnboundMethodValue):
         if value.secondary_attr_name:
@@ -176,7 +179,9 @@ def _get_boolability_no_mvv(value: Value) -> Boolability:
             return Boolability.boolable  # TODO deal with synthetic types
         return _get_type_boolability(value.typ)
     else:
-        assert False, f"unhandled value {value!r}"
+        # Other kinds of values (e.g., type aliases, ParamSpec args and kwargs,
+        # synthetic modules): we don't know anything about their truthiness.
+        return Boolability.boolable
 
 
 def _get_type_boolability(typ: type, *, is_exact: bool = False) -> Boolability:
